@@ -1,6 +1,6 @@
 From Coq Require Import List Arith ZArith QArith Bool.
 Import ListNotations.
-From PF Require Import Arr Net Rank Accu Stream Ops Ucat Glue RunC03 RunC14.
+From PF Require Import Arr Net Rank Accu Stream Ops Ucat Lstsq Glue RunC03 RunC14.
 Local Open Scope Z_scope.
 
 Definition run_c10 (k : Z) (args : list (list Z)) : list (list Z) :=
@@ -14,4 +14,9 @@ Definition run_c10 (k : Z) (args : list (list Z)) : list (list Z) :=
   else if k =? 1004 then [oq_out (segment_average ds outs (mask_opt (argz 2 args) (arg 3 args)) (arg 4 args)
                                                   (match arg 6 args with [] => ones (length ds) | w => w end) (argz 5 args))]
   else if k =? 1005 then [oq_out (segment_median ds outs (mask_opt (argz 2 args) (arg 3 args)) (arg 4 args) (argz 5 args))]
+  else if k =? 1006 then
+    (* arithmetics.lstsq on integer points (args xs, ys): slope and intercept as exact rationals; then the two slope methods *)
+    let pts := map (fun p => (inject_Z (fst p), inject_Z (snd p))) (combine (arg 0 args) (arg 1 args)) in
+    let '(a, b) := lstsq pts in
+    [oq_out [Some (Qred a); Some (Qred b); Some (Qred (slope_lstsq pts)); Some (Qred (slope_mean pts))]]
   else [[-999]].
